@@ -1184,7 +1184,9 @@ func (sp *SymPath) Feasible() bool {
 			isNew := func(a string) bool {
 				return strings.HasPrefix(a, "errors.New(") || strings.HasPrefix(a, "fmt.Errorf(") || strings.HasPrefix(a, "&") || strings.HasPrefix(a, "make(")
 			}
-			isNilish := func(a string) bool { return a == "nil" || strings.HasPrefix(a, "zero:") }
+			isNilish := func(a string) bool {
+				return a == "nil" || (strings.HasPrefix(a, "zero:") && !strings.ContainsAny(a, ".(["))
+			}
 			if (isNew(la) && isNilish(ra)) || (isNew(ra) && isNilish(la)) {
 				if c.Op == token.EQL {
 					return false
